@@ -5,7 +5,7 @@ from types import SimpleNamespace
 
 from symex.api import Case
 from symex import refs
-from harness.svcommon import make_data, build_sv_impl, with_krylov_stub, h_ref_step
+from harness.svcommon import make_data, build_sv_impl, with_krylov_stub, h_ref_step, sv_stub_config
 from harness.mpscommon import build_mps_impl, mps_config, kept_sites, h_ref_internal, all_perms
 
 PROPERTY = "C25"
@@ -31,7 +31,7 @@ def sv_bad_atoms(n, steps):
         data, sym = make_data(env, n, steps, bad_atoms=bad, prep_error=0.1, last_time=40)
         om0, de0, ph0 = sym.omega.clone(), sym.delta.clone(), sym.phi.clone()
         sym_ref = SimpleNamespace(**{**sym.__dict__, "omega": om0, "delta": de0, "phi": ph0})
-        cfg = SimpleNamespace(gpu=False, initial_state=None, krylov_tolerance=1e-8, observables=[])
+        cfg = sv_stub_config(initial_state=None)
 
         def run(rec):
             impl = build_sv_impl(env, data, cfg)
@@ -60,7 +60,7 @@ def sv_rejects_initial_state(n):
         svs = env.mod("emu_sv.state_vector")
         data, sym = make_data(env, n, 1, bad_atoms=[True] + [False] * (n - 1), prep_error=0.1, last_time=40)
         init = svs.StateVector(env.tensor_cplx("psi0", (2**n,)), gpu=False)
-        cfg = SimpleNamespace(gpu=False, initial_state=init, krylov_tolerance=1e-8, observables=[])
+        cfg = sv_stub_config(initial_state=init)
         env.check_raises(lambda: build_sv_impl(env, data, cfg), (NotImplementedError,), "initial state + state-preparation errors is refused")
 
     return fn
